@@ -85,7 +85,16 @@ pub fn scenario(idx: usize, seed: u64) -> ScenarioResult {
         );
         let rtt = lat_lo * 2 + (lat_hi_ab - lat_lo) / 2 + (lat_hi_ba - lat_lo) / 2;
         let span = rtt.as_micros() as i64 * 3;
-        let off: i64 = if idx % 7 == 0 { 0 } else { w.rng.gen_range(-span..=span) };
+        // mostly within +-3 RTT; one scenario in ten lets the second dial start (and so its handshake
+        // finish) up to 6 s after the first - a handshake delayed by seconds is still one that finishes
+        let off: i64 = if idx % 7 == 0 {
+            0
+        } else if idx % 10 == 3 {
+            let late = w.rng.gen_range(500_000..6_000_000i64);
+            if w.rng.gen_bool(0.5) { late } else { -late }
+        } else {
+            w.rng.gen_range(-span..=span)
+        };
         let (off_a, off_b) = if off >= 0 {
             (Duration::ZERO, Duration::from_micros(off as u64))
         } else {
